@@ -29,6 +29,7 @@ EXPLANATION = (
     ' C06.S: compile() and the flush path convert the proto-subroutine through the same single builder call, which assembles and then applies the configured transpiler.'
     ' C06.A: the assembler passes replace an operand of a command only under an isinstance fact that excludes Template, so template operands reach instantiate().'
     ' C06.T executes every from_operands abstractly with a Template at each immediate position and with raw ints.'
+    ' C06.I executes Subroutine.instantiate on modelled instructions with 0 to 6 operands and templates at any position.'
 )
 LEVEL_TEXT = (
     "Static analysis, partial: the connection-state clause (compile leaves the builder as flush does) is decided on all paths of all "
